@@ -5,16 +5,20 @@
 (* and visor members whose offset field is 0, keep their data inline (after    *)
 (* the header, padded to 512 bytes).  The archive is modelled as a sequence of *)
 (* 512-byte blocks in the header area followed by a data area.                 *)
-(* members[i] = [visor, dir, size (bytes class), inline, slot]:                 *)
+(* members[i] = [visor, dir, size (bytes class), inline, slot, ext]:            *)
 (*    inline: data follows the header; slot: rank of the data in the data area *)
+(*    ext: number of 512-byte blocks of extension records (GNU long-name "L"   *)
+(*         record or pax "x" record: its own header + payload blocks) written  *)
+(*         in front of the member's header; the reader consumes them and then  *)
+(*         parses the real header that follows.                                *)
 EXTENDS Common, TLC, Json, IOUtils
 
-CONSTANTS MaxM, Sizes
+CONSTANTS MaxM, Sizes, Exts
 VARIABLES members, cursor, listed, phase
 vars == <<members, cursor, listed, phase>>
 
 Blocks(sz) == CeilDiv(sz, 512)
-Member == [visor : BOOLEAN, dir : BOOLEAN, size : Sizes, inline : BOOLEAN, slot : 1..MaxM]
+Member == [visor : BOOLEAN, dir : BOOLEAN, size : Sizes, inline : BOOLEAN, slot : 1..MaxM, ext : Exts]
 WFM(ms) == /\ \A i \in 1..Len(ms) : /\ ms[i].dir => (ms[i].size = 0 /\ ms[i].inline)
                                     /\ ~ms[i].visor => ms[i].inline                       \* only visor headers can point elsewhere
                                     /\ (ms[i].visor /\ ms[i].size = 0) => ms[i].inline     \* empty files have no data area slot
@@ -26,14 +30,15 @@ WFM(ms) == /\ \A i \in 1..Len(ms) : /\ ms[i].dir => (ms[i].size = 0 /\ ms[i].inl
 
 \* block index (in the header area) of member i's header: headers and inline data are laid out in order
 RECURSIVE HdrBlock(_, _)
-HdrBlock(ms, i) == IF i = 1 THEN 0
-                   ELSE HdrBlock(ms, i - 1) + 1 + (IF ms[i - 1].inline THEN Blocks(ms[i - 1].size) ELSE 0)
-EndBlock(ms) == HdrBlock(ms, Len(ms)) + 1 + (IF ms[Len(ms)].inline THEN Blocks(ms[Len(ms)].size) ELSE 0)
+RecBlocks(m) == m.ext + 1 + (IF m.inline THEN Blocks(m.size) ELSE 0)
+\* block index of the first block of member i's record (its extension record if it has one, else its header)
+HdrBlock(ms, i) == IF i = 1 THEN 0 ELSE HdrBlock(ms, i - 1) + RecBlocks(ms[i - 1])
+EndBlock(ms) == HdrBlock(ms, Len(ms)) + RecBlocks(ms[Len(ms)])
 
 \* ---- the reader (tarfile iteration with VisorTarInfo._proc_member) ----
 \* after parsing the header at `cursor` the next header is searched at:
-NextCursor(m, c) == IF m.visor /\ ~m.inline THEN c + 1          \* data lives elsewhere: do not skip
-                    ELSE c + 1 + Blocks(m.size)                 \* standard tar: skip the inline data
+NextCursor(m, c) == IF m.visor /\ ~m.inline THEN c + m.ext + 1          \* data lives elsewhere: do not skip
+                    ELSE c + m.ext + 1 + Blocks(m.size)                 \* standard tar: skip the inline data
 HeaderAt(ms, c) == IF \E i \in 1..Len(ms) : HdrBlock(ms, i) = c
                    THEN CHOOSE i \in 1..Len(ms) : HdrBlock(ms, i) = c ELSE 0
 
